@@ -221,6 +221,62 @@ Proof.
     exists (s, e). split; [reflexivity|]. apply in_flat_map. exists v. split; [exact Hv|]. rewrite Eq, N.eqb_refl. left. reflexivity.
 Qed.
 
+(** prepare_rename announces a range that the rename then edits *)
+Lemma decl_ident_span_at_spec ns idx s e :
+  decl_ident_span_at ns idx = Some (s, e) ->
+  exists n, In n ns /\ n_decl n = true /\ n_istart n <= idx < n_iend n /\ s = n_istart n /\ e = n_iend n /\ decl_ident_at ns idx = Some (n_id n).
+Proof.
+  induction ns as [|w ns IH]; cbn [decl_ident_span_at decl_ident_at]; [discriminate|].
+  destruct (n_decl w && contains (n_istart w) (n_iend w) idx) eqn:E.
+  - intros H. inversion H; subst. apply andb_true_iff in E. destruct E as [E1 E2]. apply contains_spec in E2.
+    exists w. repeat split; auto; try lia. left. reflexivity.
+  - intros H. destruct (IH H) as (n & Hin & Hrest). exists n. split; [right; exact Hin|exact Hrest].
+Qed.
+
+Theorem f_prepare_on_declaration f m idx s e :
+  decl_ident_span_at (fm_nodes (mod_at f m)) idx = Some (s, e) ->
+  f_prepare f m idx = Some (s, e) /\
+  exists n, In n (fm_nodes (mod_at f m)) /\ n_decl n = true /\ s = n_istart n /\ e = n_iend n /\ f_find_definition f m idx = Some (n_id n).
+Proof.
+  intros H. split; [unfold f_prepare; rewrite H; reflexivity|].
+  destruct (decl_ident_span_at_spec _ _ _ _ H) as (n & Hin & Hd & _ & Hs & He & Hdef).
+  exists n. repeat split; try assumption. unfold f_find_definition. rewrite Hdef. reflexivity.
+Qed.
+
+(** on a declaration whose identifier is the cursor's, with definition identifiers unique in the
+    folder ([locate] finds the node itself): the announced range is the first edit of the rename *)
+Theorem f_prepare_rename_declaration f m idx s e n :
+  decl_ident_span_at (fm_nodes (mod_at f m)) idx = Some (s, e) ->
+  f_find_definition f m idx = Some (n_id n) -> internal f (n_id n) = false ->
+  locate f (n_id n) = Some (m, n) -> s = n_istart n -> e = n_iend n ->
+  exists rest, f_rename f m idx = (m, s, e) :: rest.
+Proof.
+  intros _ Hd Hi Hl -> ->. exists (f_refs f (n_id n)). apply f_rename_external; assumption.
+Qed.
+
+(** on a variable (either identifier) bound to an external definition: the announced range is the
+    variable's last identifier, one of the reference edits *)
+Theorem f_prepare_rename_variable f m idx v d i n fm :
+  folder_ok f -> nth_error (f_mods f) m = Some fm ->
+  decl_ident_span_at (fm_nodes fm) idx = None -> qual_at (fm_quals fm) idx = None ->
+  In v (fm_uses fm) -> on_ident v idx = true ->
+  (forall x, In x (fm_nodes fm) -> n_decl x = true -> ~ (n_istart x <= idx < n_iend x)) ->
+  u_def (v_use v) = Some d -> internal f d = false -> locate f d = Some (i, n) ->
+  f_prepare f m idx = Some (u_istart (v_use v), u_iend (v_use v)) /\
+  In (m, u_istart (v_use v), u_iend (v_use v)) (f_rename f m idx).
+Proof.
+  intros Hok Hn Hnd Hnq Hin Hon Hno Hd Hi Hl.
+  pose proof (mod_at_nth_error f m fm Hn) as Hm.
+  assert (Hvar : var_ident_at (fm_uses fm) idx = Some v).
+  { destruct (mod_at_ok f m Hok) as [Ho Hq]. rewrite Hm in Ho, Hq. apply (var_ident_at_inside _ Ho Hq v idx Hin Hon). }
+  split.
+  - unfold f_prepare. rewrite Hm, Hnd, Hnq, Hvar. reflexivity.
+  - assert (Hfd : f_find_definition f m idx = Some d).
+    { rewrite <- Hd. apply (f_find_definition_on_variable f m idx v Hok); try rewrite Hm; assumption. }
+    rewrite (f_rename_external f m idx d i n Hfd Hi Hl). right. apply f_refs_exact.
+    exists fm, (v_use v). repeat split; try assumption. unfold uses_of. apply in_map. exact Hin.
+Qed.
+
 (** a concrete folder of two modules: a qualified use in the first module bound to a
     declaration of the second; the hypotheses of the theorems hold and the answers are computed *)
 Definition ex_folder : folder :=
@@ -235,5 +291,7 @@ Example ex_folder_answers :
   f_goto ex_folder 0 43 = Some (1%nat, 0, 15) /\ f_goto ex_folder 0 52 = None /\
   f_references ex_folder 1 5 = [(0%nat, 42, 46); (1%nat, 30, 34)] /\
   f_rename ex_folder 0 44 = [(1%nat, 4, 8); (0%nat, 42, 46); (1%nat, 30, 34)] /\
-  f_rename ex_folder 0 15 = [(0%nat, 15, 16); (0%nat, 40, 41)] /\ f_rename ex_folder 0 52 = [].
+  f_rename ex_folder 0 15 = [(0%nat, 15, 16); (0%nat, 40, 41)] /\ f_rename ex_folder 0 52 = [] /\
+  f_prepare ex_folder 0 40 = Some (42, 46) /\ f_prepare ex_folder 0 15 = Some (15, 16) /\ f_prepare ex_folder 1 5 = Some (4, 8) /\
+  f_prepare ex_folder 1 10 = None.
 Proof. vm_compute. repeat split. Qed.
